@@ -26,8 +26,7 @@ theorem rep_u64_of_eq (r : BitVec 64) (v : Int) (h : r = BitVec.ofInt 64 v) : Re
   omega
 
 theorem convert_u64_emod (v : Int) : convert .u64 (v % 18446744073709551616) = v % 18446744073709551616 := by
-  simp only [convert, wrap, ITy.signed, ITy.bits]
-  omega
+  simp [convert, wrap, ITy.signed, ITy.bits]
 
 section
 variable {off toff : Nat → Int} {K : Nat}
@@ -132,4 +131,13 @@ theorem EvX.ptr_postfix (isDec : Bool) {σ : Env} {k0 j : Nat} (size pv : Int) (
   simpa [ptrPostCode, ptrAddCode, List.append_assoc] using this
 
 end
+
+/-! ### a concrete instance: `int *p = (int *)0x100000000000; int i = 600000000`, one hidden temporary at -24(%rbp) -/
+
+def ptrToff : Nat → Int := fun k => -24 - 8 * (k : Int)
+
+theorem ptrFrameX : FrameX ptrEnv exOff ptrToff 1 3 ptrState :=
+  ⟨by decide, lay_of_layoutOK ptrEnv.tys exOff ptrToff 1 4096 (by decide) _ _ (by decide) (by decide),
+   fun i t v ht hv => (ptrFrame.2 i t v ht hv).1⟩
+
 end ChibiVerif.C01
